@@ -158,7 +158,9 @@ def gen_runs(rng, tier, cleanups=("n",), namings=None, sfxs=(b"log",), bg=False,
     for run in range(rng.randint(1, max_runs)):
         cfg = Cfg(base=base, disc=disc, sfx=sfx, crit=crit, naming=naming, cleanup=cleanup,
                   append=(rng.random() < 0.5) if vary_append else append0, cap=rng.choice([None, None, 6, 32]),
-                  bg=bg and rng.random() < 0.5)
+                  # (with a suffix that sorts after "restart-" the cleanup can hit the file being written - known finding
+                  #  S1 -, which races with the writing thread when it runs in the background: keep that deterministic)
+                  bg=bg and rng.random() < 0.5 and (sfx is None or sfx <= b"restart-"))
         ops.append("B:" + cfg.token())
         for _ in range(rng.randint(0, 6 if tier == "quick" else 10)):
             r = rng.random()
